@@ -932,19 +932,19 @@ impl Schedule {
                 || vehicle_type_of_provider_result.unwrap() != vehicle_type_of_receiver
             {
                 // vehicle types do not match, check if there are any service trip in the segment
-                if self
-                    .tour_of(provider)
-                    .unwrap()
-                    .sub_path(segment)
-                    .unwrap()
-                    .iter()
-                    .any(|n| {
-                        !self
-                            .network
-                            .compatible_with_vehicle_type(n, vehicle_type_of_receiver)
-                    })
-                {
-                    return false;
+                // (a dummy tour can lose its connecting maintenance slots and then no longer is a
+                // path in the network; its segments cannot be extracted and are not reassigned)
+                match self.tour_of(provider).unwrap().sub_path(segment) {
+                    Ok(path) => {
+                        if path.iter().any(|n| {
+                            !self
+                                .network
+                                .compatible_with_vehicle_type(n, vehicle_type_of_receiver)
+                        }) {
+                            return false;
+                        }
+                    }
+                    Err(_) => return false,
                 }
             }
         }
